@@ -47,6 +47,11 @@ def scope(model: Model) -> t.List[FuncInfo]:
                 fs[f.qualname] = f
     for q in EXTRA_SCOPE:
         fs[q] = model.func(q)
+    # accessors of the dataclass base that run while a value is merely read (serialised, compared, printed)
+    for nm in ('__getattr__', '__getattribute__', '__repr__', '__eq__', '__hash__', '__iter__', '__len__'):
+        g = model.functions.get(f'pane.classes.PaneBase.{nm}')
+        if g is not None:
+            fs[g.qualname] = g
     # nested closures defined inside into_data methods (DictConverter._k_into_data ...)
     for q, f in list(model.functions.items()):
         p = f.parent
